@@ -1,16 +1,17 @@
 #!/bin/sh
-# usage: tools/try_seed2.sh <property id> [more property ids to check...]
-# Round-2 seeded change of /tmp/seed2-<id> (worktree /tmp/wt2-<id>): confirm in its scratch worktree (tests, demo on
-# changed and original tree), copy to /verif/seeded/<id>-r2/, apply to /repo, run the checks, undo straight afterwards.
+# usage: [ROUND=3] tools/try_seed2.sh <property id> [more property ids to check...]
+# Round-N (default 2) seeded change of /tmp/seedN-<id> (worktree /tmp/wtN-<id>): confirm in its scratch worktree (tests,
+# demo on changed and original tree), copy to /verif/seeded/<id>-rN/, apply to /repo, run the checks, undo straight afterwards.
 id=$1; shift
-wt=/tmp/wt2-$id; sd=/tmp/seed2-$id; out=/verif/seeded/$id-r2
+R=${ROUND:-2}
+wt=/tmp/wt$R-$id; sd=/tmp/seed$R-$id; out=/verif/seeded/$id-r$R
 mkdir -p $out
 cp $sd/patch.diff $sd/meta.json $sd/seed_demo.rs $sd/demo_output.txt $out/ 2>/dev/null
 echo "== confirm in worktree $wt"
 ( cd $wt && git diff --stat -- src | tail -1
   CARGO_TARGET_DIR=$wt/target cargo test --workspace --no-fail-fast --offline 2>&1 | grep -E "^test result" | head -3
   CARGO_TARGET_DIR=$wt/target cargo run --offline $DEMO_FEATURES --example seed_demo >/tmp/demo2-$id.changed 2>&1; echo "demo on changed tree: exit $?"
-  git stash -q -- src && CARGO_TARGET_DIR=$wt/target cargo run --offline $DEMO_FEATURES --example seed_demo >/tmp/demo2-$id.orig 2>&1; echo "demo on original tree: exit $?"; git stash pop -q
+  git diff -- src > /tmp/demo2-$id.patch; git apply -R /tmp/demo2-$id.patch && CARGO_TARGET_DIR=$wt/target cargo run --offline $DEMO_FEATURES --example seed_demo >/tmp/demo2-$id.orig 2>&1; echo "demo on original tree: exit $?"; git apply /tmp/demo2-$id.patch
 ) 2>&1 | tee $out/confirm.txt
 echo "== apply to /repo and run checks: $id $*"
 git -C /repo apply $out/patch.diff || { echo "patch does not apply"; exit 2; }
